@@ -8,7 +8,7 @@ R4  tableau / watch-list writers; pivot removes the leaving row from every watch
     update / pivot_and_update value arithmetic.
 """
 from ..expr import LocalEnv, canon, show
-from ..facts import AnalysisBroken, short, src, walk
+from ..facts import AnalysisBroken, kids, short, src, walk
 from ..tables import enum_paths, switch_arms
 from .. import dual, effects
 
@@ -276,7 +276,7 @@ def r4(ctx, fs):
     rid = 'C09.R4'
     ctx.rule(rid, 'tableau, t_watches and vals are modified only by the reviewed writers; pivot removes the leaving row from the watch list of each of its variables, '
                   'solves it for the entering variable (divide by -cf, add x_i / cf) and re-adds through new_row; new_row watches every variable of the row; '
-                  'update: x_k += a_ki (v - x_i) for every watching row, then x_i = v; pivot_and_update: theta = (v - x_i)/a_ij, x_i = v, x_j += theta, other rows += a_kj theta', floor=12)
+                  'update: x_k += a_ki (v - x_i) for every watching row, then x_i = v; pivot_and_update: theta = (v - x_i)/a_ij, x_i = v, x_j += theta, other rows += a_kj theta', floor=16)
     for field, allowed in TABLEAU_WRITERS.items():
         w = effects.field_writers(fs, field)
         if not w:
@@ -342,6 +342,7 @@ def r4(ctx, fs):
         ctx.instance(rid, [f.id, k], {'fact': k, 'holds': v})
         if not v:
             ctx.finding(rid, f.id, k, 'lra_theory::pivot: "%s" does not hold - the tableau no longer represents the original equations' % k, loc=f.loc)
+    row_update(ctx, fs, f, rid)
     # update / pivot_and_update arithmetic
     f = fs.fn(LRA + 'update')
     env = LocalEnv(f)
@@ -383,6 +384,96 @@ def r4(ctx, fs):
         ctx.instance(rid, [f.id, k], {'fact': k, 'holds': v})
         if not v:
             ctx.finding(rid, f.id, k, 'lra_theory::pivot_and_update: "%s" does not hold - the values stop satisfying the tableau equations' % k, loc=f.loc)
+
+
+def _ren(t, m):
+    if isinstance(t, str):
+        return m.get(t, t)
+    if isinstance(t, tuple):
+        r = tuple(_ren(x, m) for x in t)
+        if r and r[0] in ('*', '+', '==', '!=') and len(r) == 3:
+            r = (r[0],) + tuple(sorted(r[1:], key=repr))
+        return r
+    return t
+
+
+def _effects(n, env, m):
+    out = set()
+    for x in walk(n):
+        if x.get('as'):
+            continue
+        if x.get('k') in ('CXXMemberCallExpr', 'CXXOperatorCallExpr', 'BinaryOperator', 'CompoundAssignOperator'):
+            c = _ren(canon(x, env, subst=False), m)
+            if isinstance(c, tuple) and (c[0] in ('+=', '-=', '=', '*=', '/=') or (c[0] == 'mcall' and c[1].rsplit('::', 1)[-1] in effects.MUTATING)):
+                out.add(c)
+    return out
+
+
+def row_update(ctx, fs, f, rid):
+    """the update of the rows that contain the entering variable x_j (sequential build; C20.R1 transfers it to the tasks of the parallel build):
+    cc = a_kj; drop x_j; for every term c*v of the solved expression: absent -> add c*cc and watch v; present -> += c*cc, and when it becomes zero drop the term and unwatch v;
+    constant += cc * constant of the expression."""
+    env = LocalEnv(f)
+    env.param_roles(['x_i', 'x_j'])
+    env.local_role('expr', lambda n, i: n.get('t') == 'smt::lin' and i is not None)
+    loops = [n for n in f.nodes() if n.get('k') == 'CXXForRangeStmt' and 'unordered_set<smt::row *' in (n['slots']['range'].get('t') or '')]
+    if len(loops) != 1:
+        raise AnalysisBroken('%s: the loop over the rows watching the entering variable was not found' % f.id)
+    loop = loops[0]
+    body = loop['slots']['body']
+    m = {loop['slots']['var'].get('name'): 'r'}
+    RV = ('.', ('.', 'r', 'l'), 'vars')
+    MAP = 'std::map<const unsigned long, smt::rational>::'
+    SET = 'std::unordered_set<smt::row *>::'
+    cc = [n for n in walk(body) if n.get('k') == 'VarDecl' and (n.get('t') or '').replace('const ', '') == 'smt::rational' and n.get('init') is not None
+          and _ren(canon(n['init'], env, subst=False), m) in (('[]', RV, 'x_j'), ('mcall', MAP + 'at', RV, 'x_j'))]
+    inner = [n for n in walk(body) if n.get('k') == 'CXXForRangeStmt' and canon(n['slots']['range'], env, subst=False) == ('.', 'expr', 'vars')]
+    facts_ = {}
+    facts_['cc = coefficient of x_j in the row'] = len(cc) == 1
+    if cc:
+        m[cc[0]['name']] = 'cc'
+    top = _effects(body, env, m)
+    facts_['x_j removed from the row'] = ('mcall', MAP + 'erase', RV, 'x_j') in top
+    facts_['constant += cc * constant of the solved expression'] = ('+=', ('.', ('.', 'r', 'l'), 'known_term'), _ren(('*', 'cc', ('.', 'expr', 'known_term')), {})) in top
+    ok_inner = False
+    detail = ''
+    if len(inner) == 1:
+        b = inner[0]['slots']['var'].get('bindings') or []
+        if len(b) == 2:
+            m[b[0]] = 'v'
+            m[b[1]] = 'c'
+        ifs = [n for n in kids(inner[0]['slots']['body'])] if inner[0]['slots']['body'].get('k') == 'CompoundStmt' else [inner[0]['slots']['body']]
+        ifs = [n for n in ifs if n.get('k') == 'IfStmt']
+        if len(ifs) == 1 and ifs[0]['slots'].get('init') is not None and ifs[0]['slots'].get('else') is not None:
+            I = ifs[0]
+            vd = [n for n in walk(I['slots']['init']) if n.get('k') == 'VarDecl']
+            if len(vd) == 1 and vd[0].get('init') is not None and _ren(canon(vd[0]['init'], env, subst=False), m) == ('mcall', MAP + 'find', RV, 'v'):
+                m[vd[0]['name']] = 'it'
+                c = _ren(canon(I['slots']['cond'], env, subst=False), m)
+                absent, present = I['slots']['then'], I['slots']['else']
+                endc = [('mcall', MAP + e, RV) for e in ('cend', 'end')]
+                isend = isinstance(c, tuple) and c[0] in ('==', '!=') and any(x in endc for x in c[1:]) and any('it' == x or (isinstance(x, tuple) and x[-1] == 'it') for x in c[1:])
+                if isend and c[0] == '!=':
+                    absent, present = present, absent
+                ea, ep = _effects(absent, env, m), _effects(present, env, m)
+                prod = _ren(('*', 'c', 'cc'), {})
+                want_a = [{('mcall', MAP + 'emplace', RV, 'v', prod), ('mcall', SET + w, ('[]', LRA + 't_watches', 'v'), 'r')} for w in ('emplace', 'insert')]
+                zifs = [n for n in walk(present) if n.get('k') == 'IfStmt']
+                zero_ok = False
+                if len(zifs) == 1 and zifs[0]['slots'].get('else') is None:
+                    zc = _ren(canon(zifs[0]['slots']['cond'], env, subst=False), m)
+                    ez = _effects(zifs[0]['slots']['then'], env, m)
+                    zero_ok = zc in (_ren(('==', 'smt::rational::ZERO', ('.', 'it', 'second')), {}), ('mcall', 'smt::rational::is_zero', ('.', 'it', 'second'))) and \
+                        ez in ({('mcall', MAP + 'erase', RV, k), ('mcall', SET + 'erase', ('[]', LRA + 't_watches', 'v'), 'r')} for k in ('it', 'v'))
+                    ep = ep - ez
+                ok_inner = isend and ea in want_a and ep == {('+=', ('.', 'it', 'second'), prod)} and zero_ok
+                detail = 'absent: %s | present: %s | zero test ok: %s' % (sorted(show(x) for x in ea), sorted(show(x) for x in ep), zero_ok)
+    facts_['for every term c*v of the solved expression: absent -> add c*cc and watch v; present -> += c*cc, zero -> drop term and unwatch v'] = ok_inner
+    for k, v in facts_.items():
+        ctx.instance(rid, [f.id, 'row-update', k], {'fact': k, 'holds': v, 'detail': detail if 'every term' in k else ''})
+        if not v:
+            ctx.finding(rid, f.id, 'row-update:' + k.split(' ')[0] + str(len(k)), 'lra_theory::pivot, update of the rows containing the entering variable: "%s" does not hold%s - the tableau rows stop being the original equations solved for the basic variables'
+                        % (k, (' (' + detail + ')') if detail and 'every term' in k else ''), node=loop)
 
 
 class _W:
